@@ -78,6 +78,31 @@ var (
 	plainStrs = plainOnly(strPool)
 )
 
+// pieces of string LEXEMES (JSON text level): every escape form, control characters that Go's strconv would
+// write differently from JSON (\u001b \u0000 \u000b \u0007 \u007f), BMP and surrogate-pair escapes in both hex
+// cases, solidus, raw non-ASCII, and (rarely) escapes fastjson keeps as written (lone surrogates).
+var lexPlain = []string{"a", "Z", "0", " ", "secret", "-", "é", "名", "😀", "ß", "/", "x y"}
+var lexEscapes = []string{`\u001b`, `\u0000`, `\u000b`, `\u0007`, `\u001f`, `\u007f`, `\u001B`, `\u000B`, `\u0001`,
+	`\u00e9`, `\u00E9`, `\u540d`, `\u540D`, `\u2028`, `\u200b`, `\ud83d\ude00`, `\uD83D\uDE00`, `\uD83d\uDe00`,
+	`\/`, `\b`, `\f`, `\n`, `\r`, `\t`, `\"`, `\\\\`, `\u0041`, `\u005c`, `\u0022`}
+var lexOdd = []string{`\ud83d`, `\udc00`, `\ud83d\u0041`, `\ud83dx`}
+
+func genLexeme(r *prng.R) string {
+	var b strings.Builder
+	n := r.Range(1, 4)
+	for i := 0; i < n; i++ {
+		switch x := r.Intn(100); {
+		case x < 35:
+			b.WriteString(prng.Pick(r, lexPlain))
+		case x < 97:
+			b.WriteString(prng.Pick(r, lexEscapes))
+		default:
+			b.WriteString(prng.Pick(r, lexOdd))
+		}
+	}
+	return b.String()
+}
+
 type gctx struct {
 	r       *prng.R
 	plain   bool     // only names/strings that need no escaping (duplicate-key stream, see notes/C16.md)
@@ -109,6 +134,10 @@ func (g *gctx) leaf() *jv {
 	default:
 		if g.plain {
 			return &jv{k: kStr, s: prng.Pick(r, plainStrs)}
+		}
+		if r.Chance(40) {
+			lx := genLexeme(r)
+			return &jv{k: kStr, s: unescape(lx), raw: lx, lex: true}
 		}
 		return &jv{k: kStr, s: prng.Pick(r, strPool)}
 	}
@@ -202,7 +231,13 @@ func text(r *prng.R, v *jv, loose bool) string {
 		case kNum:
 			b.WriteString(v.s)
 		case kStr:
-			str(v.s)
+			if v.lex {
+				b.WriteByte('"')
+				b.WriteString(v.raw)
+				b.WriteByte('"')
+			} else {
+				str(v.s)
+			}
 		case kArr:
 			b.WriteByte('[')
 			ws()
